@@ -109,6 +109,16 @@ def run(ctx: Ctx) -> None:
             n += 1
             ok = p.term == "return" and isinstance(p.term_node, ast.Return) and p.term_node.value is not None \
                 and _not_done(facts_of(p.term_node.value, True)) and len(facts_of(p.term_node.value, True)) == 1
+            if not ok and p.term == "return" and isinstance(p.term_node, ast.Return) and isinstance(p.term_node.value, ast.Constant) \
+                    and isinstance(p.term_node.value.value, bool):
+                # a guard clause: `if self.is_done(): return False` -- the constant is what `not self.is_done()` evaluates to
+                # when the test on this very path says so and nothing but tests happened in between
+                tests = [e for e in p.events if e.kind == "test"]
+                only_tests = all(e.kind in ("test", "return") for e in p.events)
+                done_facts = set()
+                for e in tests:
+                    done_facts |= {(a, v) for a, v in facts_of(e.node, bool(e.pol)) if a.endswith(".is_done()")}
+                ok = only_tests and len(done_facts) == 1 and next(iter(done_facts))[1] == (not p.term_node.value.value)
             if not ok:
                 r.viol(f"{key}|return", f.loc(p.term_node or f.node),
                        f"{key}: a path does not end in `return not self.is_done()`", p.labels())
